@@ -33,6 +33,7 @@ type tnode struct {
 	Cid      cid.Cid
 	Size     uint64
 	Path     []string
+	Aliases  []string // names that are not entries but share a whole hash with one (hamt only)
 }
 
 func (n *tnode) isDir() bool { return n.Kind != "file" }
@@ -63,7 +64,7 @@ func (n *tnode) all() []*tnode {
 	return out
 }
 
-var treeNamePool = []string{".", "..", "a b", "%41", "ä", "日本", "😀", "0", "07", "2024", "FF", "0A", "x.txt", "x", "X", "long-name-with-many-characters-0123456789", "~", "a%2Fb", "tab\there", "é", "-", "_", "00", "1"}
+var treeNamePool = []string{" lead", "lead", "trail ", "trail", "readme\t", "readme", "todo\u3000", "todo", "\u00a0nbsp", " ", ".", "..", "a b", "%41", "ä", "日本", "😀", "0", "07", "2024", "FF", "0A", "x.txt", "x", "X", "long-name-with-many-characters-0123456789", "~", "a%2Fb", "tab\there", "é", "-", "_", "00", "1"}
 
 func genTreeNames(r *rand.Rand, n int) []string {
 	seen := map[string]bool{}
@@ -102,7 +103,23 @@ func genTree(r *rand.Rand, depth int, root bool) *tnode {
 		if r.Intn(12) == 0 {
 			cnt = 0
 		}
-		for _, name := range genTreeNames(r, cnt) {
+		names := genTreeNames(r, cnt)
+		if n.Kind == "hamt" {
+			// a few entries whose hash equals that of one of their own proper suffixes:
+			// a path ending in that suffix names no entry but walks the same bucket chain
+			for k := 0; k < 3; k++ {
+				suf := fmt.Sprintf("-alias%d.txt", k)
+				for tries := 0; tries < 50; tries++ {
+					m := gen.CraftAround(nil, []byte(suf), oracle.Hash64(suf), r.Uint64())
+					if !strings.Contains(m, "/") {
+						names = append(names, m)
+						n.Aliases = append(n.Aliases, suf)
+						break
+					}
+				}
+			}
+		}
+		for _, name := range names {
 			c := genTree(r, depth-1, false)
 			c.Name = name
 			n.Children = append(n.Children, c)
